@@ -550,12 +550,16 @@ def ex_depol(p, seed):
     if typ in ("gate", "mprocess"):
         out.count("depolarized_nonunital_bases", nonunital)
     X = R.generic_matrix(d, seed, salt=3)
+
+    def idkw(b):
+        # named 2-qubit gates need the ids of the subsystems they act on
+        return {"ids": [0, 1]} if (systag == "Q2" and typ == "gate" and isinstance(b, tuple)) else {}
     for base in bases:
         for pr in (0.0, 1e-3, 0.5, 1.0):
-            ok, obj = A.call(lambda: DS(c, base, pr).generate())
+            ok, obj = A.call(lambda: DS(c, base, pr, **idkw(base)).generate())
             out.ops += 1
             # the same setting object generates again (the flow does so once per sample): same object every time, base untouched
-            ok_s, setting = A.call(DS, c, base, pr)
+            ok_s, setting = A.call(DS, c, base, pr, **idkw(base))
             if ok and ok_s:
                 base_snap = np.array(setting.qoperation_base.to_stacked_vector(), dtype=float).copy()
                 caller_snap = None if isinstance(base, tuple) else np.array(base.to_stacked_vector(), dtype=float).copy()
@@ -584,7 +588,7 @@ def ex_depol(p, seed):
             if not ok:
                 out.fail(site + ":raises", "%r p=%g: %s" % (base, pr, A.fmt_exc(obj)))
                 continue
-            ideal = DS(c, base, 0.0).qoperation_base
+            ideal = DS(c, base, 0.0, **idkw(base)).qoperation_base
             out.count("depolarized_checked")
             out.traces += 1
             if not physical_ref(obj):
